@@ -51,12 +51,21 @@ Proof.
   cbn beta in H. destruct (hex_val (hex_digit d)) as [x|]; [|discriminate]. apply Z.eqb_eq in H. subst. reflexivity.
 Qed.
 
+Definition hexpair (x y : Z) : Z := 16 * x + y.
 Lemma hex_decode_go_cons2 a c t : hex_decode_go (a :: c :: t) =
   match hex_val a, hex_val c with
-  | Some x, Some y => let '(r, ok) := hex_decode_go t in (byte_of_Z (16 * x + y) :: r, ok)
+  | Some x, Some y => let '(r, ok) := hex_decode_go t in (byte_of_Z (hexpair x y) :: r, ok)
   | _, _ => ([], false)
   end.
 Proof. reflexivity. Qed.
+Lemma hex_byte_pair x y : 0 <= x < 16 -> 0 <= y < 16 -> hex_byte (byte_of_Z (hexpair x y)) = [hex_digit x; hex_digit y].
+Proof.
+  intros Hx Hy. unfold hex_byte. cbv zeta. rewrite Z_of_byte_of_Z. unfold hexpair. rewrite (Z.mod_small (16 * x + y) 256) by lia.
+  replace ((16 * x + y) / 16) with x by (rewrite Z.mul_comm, Z.div_add_l by lia; rewrite (Z.div_small y 16) by lia; lia).
+  replace ((16 * x + y) mod 16) with y by (rewrite Z.add_comm, Z.mul_comm, Z.mod_add by lia; symmetry; apply Z.mod_small; lia).
+  reflexivity.
+Qed.
+Global Opaque hexpair.
 
 Lemma hex_decode_go_encode b : hex_decode_go (hex_encode b) = (b, true).
 Proof.
@@ -67,7 +76,7 @@ Proof.
   rewrite hex_decode_go_cons2.
   rewrite (hex_val_digit (Z_of_byte c / 16)) by (split; [apply Z.div_pos; lia|apply Z.div_lt_upper_bound; lia]).
   rewrite (hex_val_digit (Z_of_byte c mod 16)) by (apply Z.mod_pos_bound; lia).
-  rewrite IH. f_equal. f_equal.
+  rewrite IH. f_equal. f_equal. Transparent hexpair. unfold hexpair. Opaque hexpair.
   rewrite <- (Z.div_mod (Z_of_byte c) 16) by lia. apply byte_of_Z_of_byte.
 Qed.
 
@@ -109,14 +118,12 @@ Proof.
   - rewrite hex_decode_go_cons2 in H.
     destruct (hex_val a) as [x|] eqn:Ea; [|discriminate].
     destruct (hex_val c) as [y|] eqn:Ec; [|discriminate].
-    destruct (hex_decode_go t) as [r ok] eqn:Et. inversion H; subst.
+    destruct (hex_decode_go t) as [r ok] eqn:Et. injection H as Hb Hok. subst b ok.
     destruct (IH r eq_refl) as [IHl IHe]. split; [cbn [length]; lia|].
     intros L. cbn [forallb] in L. apply andb_prop in L as [La L]. apply andb_prop in L as [Lc Lt].
     pose proof (hex_val_range _ _ Ea) as Hx. pose proof (hex_val_range _ _ Ec) as Hy.
     unfold hex_encode. cbn [flat_map]. change (flat_map hex_byte r) with (hex_encode r). rewrite (IHe Lt).
-    unfold hex_byte. rewrite Z_of_byte_of_Z. rewrite (Z.mod_small (16 * x + y) 256) by lia.
-    replace ((16 * x + y) / 16) with x by (rewrite Z.mul_comm, Z.div_add_l by lia; rewrite (Z.div_small y 16) by lia; lia).
-    replace ((16 * x + y) mod 16) with y by (rewrite Z.add_comm, Z.mul_comm, Z.mod_add by lia; symmetry; apply Z.mod_small; lia).
+    rewrite (hex_byte_pair x y Hx Hy). cbn [app].
     rewrite (hex_digit_val_lower a x La Ea), (hex_digit_val_lower c y Lc Ec). reflexivity.
 Qed.
 
@@ -174,7 +181,7 @@ Lemma parse_dec_dec n : 0 <= n -> parse_dec (dec n) = Some n.
 Proof.
   intros Hn. destruct (dec_digits n Hn) as (d & t & Hd & Hf & Hu).
   unfold dec. rewrite Hd. cbn [map].
-  inversion Hf as [|? ? Hd0 Hft]; subst.
+  pose proof (Forall_inv Hf) as Hd0. cbn beta in Hd0.
   destruct (digit_char_props d Hd0) as (D1 & D2 & D3 & D4). cbn zeta in *.
   unfold parse_dec. rewrite D3, D4.
   assert (Hall : forall l, Forall (fun d => 0 <= d < 10) l ->
@@ -335,4 +342,375 @@ Proof.
   exfalso. apply wm_accepts_only in E as (t0 & t1 & t2 & t3 & t4 & t5 & nonce & F & _ & _ & P1 & R1 & P2 & R2 & _ & _ & _ & _ & P5 & R5 & _).
   inversion F; subst.
   destruct H as [H|[H|H]]; apply H; [rewrite P1|rewrite P2|rewrite P5]; cbn [fits]; lia.
+Qed.
+
+(* ------------------------------------------------------------------ exact acceptance condition *)
+Lemma wm_accepts_if s0 s1 s2 s3 s4 s5 sender target sequence nonce payload level txid :
+  hex_decode s0 = Some sender -> length sender = 32%nat ->
+  parse_dec s1 = Some target -> 0 <= target <= 65535 ->
+  parse_dec s2 = Some sequence -> 0 <= sequence < 18446744073709551616 ->
+  hex_decode s3 = Some nonce -> length nonce = 4%nat ->
+  hex_decode s4 = Some payload ->
+  parse_dec s5 = Some level -> 0 <= level <= 255 ->
+  to_wormhole_message [VByteVec (str "ByteVec") s0; VU256 (str "U256") s1; VU256 (str "U256") s2;
+                       VByteVec (str "ByteVec") s3; VByteVec (str "ByteVec") s4; VU256 (str "U256") s5] txid =
+  COk {| w_txid := txid; w_sender := sender; w_target := target; w_nonce := unbe nonce; w_payload := payload;
+         w_seq := sequence; w_cl := level |}.
+Proof.
+  intros D0 L0 P1 R1 P2 R2 D3 L3 D4 P5 R5.
+  set (f0 := VByteVec (str "ByteVec") s0). set (f1 := VU256 (str "U256") s1). set (f2 := VU256 (str "U256") s2).
+  set (f3 := VByteVec (str "ByteVec") s3). set (f4 := VByteVec (str "ByteVec") s4). set (f5 := VU256 (str "U256") s5).
+  unfold to_wormhole_message.
+  change (length [f0; f1; f2; f3; f4; f5] =? go_wm_field_size)%nat with true. cbn [negb].
+  change (fld [f0; f1; f2; f3; f4; f5] go_wm_idx_sender) with f0.
+  change (fld [f0; f1; f2; f3; f4; f5] go_wm_idx_target) with f1.
+  change (fld [f0; f1; f2; f3; f4; f5] go_wm_idx_seq) with f2.
+  change (fld [f0; f1; f2; f3; f4; f5] go_wm_idx_nonce) with f3.
+  change (fld [f0; f1; f2; f3; f4; f5] go_wm_idx_payload) with f4.
+  change (fld [f0; f1; f2; f3; f4; f5] go_wm_idx_cl) with f5.
+  assert (E0 : to_bytevec f0 = COk sender) by (apply to_bytevec_ok; exists s0; auto).
+  assert (E3 : to_bytevec f3 = COk nonce) by (apply to_bytevec_ok; exists s3; auto).
+  assert (E4 : to_bytevec f4 = COk payload) by (apply to_bytevec_ok; exists s4; auto).
+  assert (E1 : to_uint16 f1 = COk target).
+  { apply to_uint16_ok. exists target. split; [apply to_u256_ok; exists s1; auto|auto]. }
+  assert (E2 : to_uint64 f2 = COk sequence).
+  { apply to_uint64_ok. exists sequence. split; [apply to_u256_ok; exists s2; auto|auto]. }
+  assert (E5 : to_uint8 f5 = COk level).
+  { apply to_uint8_ok. exists level. split; [apply to_u256_ok; exists s5; auto|auto]. }
+  unfold to_byte32. rewrite E0, L0. change (32 =? go_byte32_len)%nat with true. cbn [negb].
+  rewrite E1, E2, E3, L3. change (4 =? go_wm_nonce_len)%nat with true. cbn [negb].
+  rewrite E4, E5. reflexivity.
+Qed.
+
+(* negative decimal strings *)
+Lemma dec_is_digits n : 0 <= n -> dec n <> [] /\ forallb is_digit (dec n) = true /\ dec_val (dec n) = n.
+Proof.
+  intros Hn. destruct (dec_digits n Hn) as (d & t & Hd & Hf & Hu).
+  assert (Hall : forall l, Forall (fun d => 0 <= d < 10) l ->
+            forallb is_digit (map (fun d => byte_of_Z (48 + d)) l) = true /\
+            map digit_val (map (fun d => byte_of_Z (48 + d)) l) = l).
+  { induction l as [|x l IH]; intros F; [split; reflexivity|]. pose proof (Forall_inv F) as Hx. pose proof (Forall_inv_tail F) as Fl.
+    cbn beta in Hx. destruct (digit_char_props x Hx) as (X1 & X2 & _). cbv zeta in X1, X2. destruct (IH Fl) as [I1 I2].
+    cbn [map forallb]. rewrite X1, I1, X2, I2. split; reflexivity. }
+  unfold dec. rewrite Hd. destruct (Hall (d :: t) Hf) as [A1 A2]. split; [cbn [map]; discriminate|]. split; [exact A1|].
+  unfold dec_val. rewrite A2, base_10. exact Hu.
+Qed.
+
+Lemma parse_dec_neg n : 0 <= n -> parse_dec ("-"%byte :: dec n) = Some (- n).
+Proof.
+  intros Hn. destruct (dec_is_digits n Hn) as (Hne & Hdig & Hval).
+  unfold parse_dec. change (Byte.eqb "-" "-") with true. cbv iota.
+  destruct (dec n) as [|c l] eqn:E; [contradiction|]. rewrite Hdig, Hval. reflexivity.
+Qed.
+
+(* ------------------------------------------------------------------ toMessagePublication *)
+Lemma mp_fields w ms :
+  let m := to_message_publication w ms in
+  m_echain m = 255 /\ m_tchain m = w_target w /\ m_eaddr m = w_sender w /\ m_seq m = w_seq w /\ m_cl m = w_cl w /\
+  m_nonce m = w_nonce w /\ m_payload m = w_payload w /\ m_tx m = hex_to_hash (w_txid w).
+Proof.
+  cbv zeta. unfold to_message_publication.
+  destruct (time_unix (Z.quot ms go_ts_div) (Z.rem ms go_ts_rem * go_ts_nsec_mul)) as [s ns].
+  cbn [m_echain m_tchain m_eaddr m_seq m_cl m_nonce m_payload m_tx]. repeat apply conj; reflexivity.
+Qed.
+
+Lemma time_unix_spec sec nsec : - 1000000000 < nsec < 1000000000 ->
+  let '(s, ns) := time_unix sec nsec in s * 1000000000 + ns = sec * 1000000000 + nsec /\ 0 <= ns < 1000000000.
+Proof.
+  intros H. unfold time_unix.
+  destruct ((nsec <? 0) || (1000000000 <=? nsec)) eqn:E.
+  - assert (Q : Z.quot nsec 1000000000 = 0).
+    { destruct (Z.leb_spec 0 nsec); [apply Z.quot_small; lia|].
+      rewrite <- (Z.opp_involutive nsec), Z.quot_opp_l by lia. rewrite Z.quot_small by lia. reflexivity. }
+    rewrite Q. replace (nsec - 0 * 1000000000) with nsec by lia. replace (sec + 0) with sec by lia.
+    destruct (Z.ltb_spec nsec 0); lia.
+  - apply orb_false_iff in E as [E1 E2]. lia.
+Qed.
+
+Lemma mp_time w ms :
+  let m := to_message_publication w ms in
+  m_ts m * 1000000000 + m_tns m = ms * 1000000 /\ 0 <= m_tns m < 1000000000.
+Proof.
+  cbv zeta. unfold to_message_publication.
+  change go_ts_div with 1000. change go_ts_rem with 1000. change go_ts_nsec_mul with 1000000.
+  pose proof (Z.quot_rem' ms 1000) as QR.
+  assert (RB : - 1000 < Z.rem ms 1000 < 1000).
+  { pose proof (Z.rem_bound_abs ms 1000 ltac:(lia)). lia. }
+  pose proof (time_unix_spec (Z.quot ms 1000) (Z.rem ms 1000 * 1000000) ltac:(lia)) as T.
+  destruct (time_unix (Z.quot ms 1000) (Z.rem ms 1000 * 1000000)) as [s ns].
+  cbn [m_ts m_tns]. lia.
+Qed.
+
+Lemma mp_time_nonneg w ms : 0 <= ms ->
+  let m := to_message_publication w ms in m_ts m = ms / 1000 /\ m_tns m = (ms mod 1000) * 1000000.
+Proof.
+  intros Hms. cbv zeta. destruct (mp_time w ms) as [E R].
+  pose proof (Z.div_mod ms 1000 ltac:(lia)) as DM. pose proof (Z.mod_pos_bound ms 1000 ltac:(lia)) as MB.
+  split; nia.
+Qed.
+
+(* ------------------------------------------------------------------ HexToHash on what a node reports as a transaction id *)
+Lemma hex_digit_not_x d : 0 <= d < 16 -> Byte.eqb (hex_digit d) "x"%byte = false /\ Byte.eqb (hex_digit d) "X"%byte = false.
+Proof.
+  intros Hd.
+  assert (H := below_check 16 (fun d => negb (Byte.eqb (hex_digit d) "x"%byte) && negb (Byte.eqb (hex_digit d) "X"%byte)) eq_refl d Hd).
+  cbn beta in H. apply andb_prop in H as [H1 H2]. apply negb_true_iff in H1. apply negb_true_iff in H2. auto.
+Qed.
+
+Lemma has_0x_hex_encode b : has_0x (hex_encode b) = false.
+Proof.
+  destruct b as [|c b]; [reflexivity|].
+  unfold hex_encode. cbn [flat_map]. unfold hex_byte at 1. cbv zeta. cbn [app]. unfold has_0x.
+  pose proof (Z_of_byte_range c) as Hc.
+  destruct (hex_digit_not_x (Z_of_byte c mod 16) ltac:(apply Z.mod_pos_bound; lia)) as [E1 E2].
+  rewrite E1, E2. apply andb_false_r.
+Qed.
+
+Lemma hex_to_hash_to_hex b : length b = 32%nat -> hex_to_hash (to_hex b) = b.
+Proof.
+  intros L. unfold hex_to_hash, from_hex, to_hex. rewrite has_0x_hex_encode, hex_encode_length.
+  replace (Nat.odd (length b * 2)) with false by (rewrite Nat.odd_mul; cbn [Nat.odd]; symmetry; apply andb_false_r).
+  rewrite hex_decode_go_encode. cbn [fst]. unfold bytes_to_hash. rewrite L. reflexivity.
+Qed.
+
+(* ------------------------------------------------------------------ base 58 *)
+Lemma b58_char_props d : 0 <= d < 58 ->
+  b58_index (b58_char d) = Some d /\ (Byte.eqb (b58_char d) "1"%byte = (d =? 0)) /\ (128 <=? Z_of_byte (b58_char d)) = false.
+Proof.
+  intros Hd.
+  assert (H := below_check 58 (fun d => match b58_index (b58_char d) with Some x => x =? d | None => false end
+                                    && Bool.eqb (Byte.eqb (b58_char d) "1"%byte) (d =? 0) && negb (128 <=? Z_of_byte (b58_char d))) eq_refl d Hd).
+  cbn beta in H. apply andb_prop in H as [H H3]. apply andb_prop in H as [H1 H2].
+  destruct (b58_index (b58_char d)) as [x|]; [|discriminate]. apply Z.eqb_eq in H1. subst x.
+  apply Bool.eqb_prop in H2. apply negb_true_iff in H3. auto.
+Qed.
+
+Lemma index_of_spec c : forall l i d, index_of c l i = Some d ->
+  i <= d < i + Z.of_nat (length l) /\ nth (Z.to_nat (d - i)) l x00 = c.
+Proof.
+  induction l as [|x l IH]; intros i d H; [discriminate|]. cbn [index_of] in H.
+  destruct (Byte.eqb x c) eqn:E.
+  - inversion H; subst. apply byte_eqb_eq in E. subst. rewrite Z.sub_diag. cbn [length]. split; [lia|reflexivity].
+  - apply IH in H as [H1 H2]. cbn [length]. split; [lia|].
+    replace (Z.to_nat (d - i)) with (S (Z.to_nat (d - (i + 1)))) by lia. exact H2.
+Qed.
+
+Lemma b58_index_char c d : b58_index c = Some d -> 0 <= d < 58 /\ b58_char d = c.
+Proof.
+  unfold b58_index, b58_char. intros H. apply index_of_spec in H as [H1 H2].
+  change (Z.of_nat (length b58_alphabet)) with 58 in H1. rewrite Z.sub_0_r in H2. split; [lia|exact H2].
+Qed.
+
+Lemma map_opt_map {A B} (f : A -> option B) (g : B -> A) (P : B -> Prop) :
+  (forall x, P x -> f (g x) = Some x) -> forall l, Forall P l -> map_opt f (map g l) = Some l.
+Proof.
+  intros H. induction l as [|x l IH]; intros F; [reflexivity|].
+  cbn [map map_opt]. rewrite (H x (Forall_inv F)), (IH (Forall_inv_tail F)). reflexivity.
+Qed.
+
+Lemma map_opt_inv {A B} (f : A -> option B) (g : B -> A) (P : B -> Prop) :
+  (forall a x, f a = Some x -> P x /\ g x = a) -> forall l r, map_opt f l = Some r -> Forall P r /\ map g r = l.
+Proof.
+  intros H. induction l as [|a l IH]; intros r E.
+  - inversion E. split; [constructor|reflexivity].
+  - cbn [map_opt] in E. destruct (f a) as [x|] eqn:Ea; [|discriminate]. destruct (map_opt f l) as [r'|] eqn:El; [|discriminate].
+    inversion E; subst. destruct (H a x Ea) as [Px Gx]. destruct (IH r' eq_refl) as [F M].
+    split; [constructor; assumption|]. cbn [map]. rewrite Gx, M. reflexivity.
+Qed.
+
+Lemma unbe_acc_undigits l : forall acc, unbe_acc l acc = undigits_acc 256 (map Z_of_byte l) acc.
+Proof. induction l as [|c l IH]; intros acc; [reflexivity|]. cbn [unbe_acc map undigits_acc]. apply IH. Qed.
+Lemma unbe_undigits l : unbe l = undigits 256 (map Z_of_byte l).
+Proof. apply unbe_acc_undigits. Qed.
+
+Lemma map_byte_of_Z_of_byte l : map byte_of_Z (map Z_of_byte l) = l.
+Proof. induction l as [|c l IH]; [reflexivity|]. cbn [map]. rewrite byte_of_Z_of_byte, IH. reflexivity. Qed.
+Lemma map_Z_of_byte_of_Z l : Forall (fun d => 0 <= d < 256) l -> map Z_of_byte (map byte_of_Z l) = l.
+Proof.
+  induction l as [|c l IH]; intros F; [reflexivity|]. cbn [map]. rewrite Z_of_byte_of_Z, (IH (Forall_inv_tail F)).
+  pose proof (Forall_inv F) as Hc. cbn beta in Hc. rewrite Z.mod_small by lia. reflexivity.
+Qed.
+Lemma Forall_byte_range l : Forall (fun d => 0 <= d < 256) (map Z_of_byte l).
+Proof. induction l as [|c l IH]; [constructor|]. cbn [map]. constructor; [apply Z_of_byte_range|exact IH]. Qed.
+
+(* a byte string with a non-zero first byte is the minimal big-endian representation of its value *)
+Lemma min_bytes_unbe c b : c <> x00 -> min_bytes (unbe (c :: b)) = c :: b /\ 1 <= unbe (c :: b).
+Proof.
+  intros Hc. rewrite unbe_undigits. cbn [map].
+  assert (Hc0 : Z_of_byte c <> 0).
+  { intros E. apply Hc. rewrite <- (byte_of_Z_of_byte c), E. reflexivity. }
+  pose proof (Forall_byte_range (c :: b)) as F. cbn [map] in F.
+  pose proof (undigits_pos 256 ltac:(lia) (Z_of_byte c) (map Z_of_byte b) F Hc0) as Hpos.
+  split; [|exact Hpos]. unfold min_bytes. destruct (Z.eqb_spec (undigits 256 (Z_of_byte c :: map Z_of_byte b)) 0) as [E|_]; [lia|].
+  rewrite to_digits_undigits; [|lia|].
+  - apply (map_byte_of_Z_of_byte (c :: b)).
+  - split; [exact F|]. exists (Z_of_byte c), (map Z_of_byte b). split; [reflexivity|]. intros E; contradiction.
+Qed.
+
+Lemma unbe_min_bytes n : 0 <= n -> unbe (min_bytes n) = n.
+Proof.
+  intros Hn. unfold min_bytes. destruct (Z.eqb_spec n 0) as [->|N]; [reflexivity|].
+  destruct (to_digits_spec 256 ltac:(lia) n Hn) as (Hu & Hf & _).
+  rewrite unbe_undigits, map_Z_of_byte_of_Z by exact Hf. exact Hu.
+Qed.
+
+Lemma b58_ascii ds : Forall (fun d => 0 <= d < 58) ds -> existsb (fun c => 128 <=? Z_of_byte c) (map b58_char ds) = false.
+Proof.
+  induction ds as [|d ds IH]; intros F; [reflexivity|]. cbn [map existsb].
+  destruct (b58_char_props d (Forall_inv F)) as (_ & _ & A). rewrite A, (IH (Forall_inv_tail F)). reflexivity.
+Qed.
+
+Lemma b58_decode_encode c b : c <> x00 ->
+  b58_decode (b58_encode (c :: b)) = c :: b /\ existsb (fun ch => 128 <=? Z_of_byte ch) (b58_encode (c :: b)) = false.
+Proof.
+  intros Hc. destruct (min_bytes_unbe c b Hc) as [Hmin Hpos].
+  assert (Hnn : 0 <= unbe (c :: b)) by lia.
+  destruct (to_digits_spec 58 ltac:(lia) (unbe (c :: b)) Hnn) as (Hu & Hf & d0 & t & Hd & Hz).
+  assert (Hd0 : d0 <> 0) by (intros E; specialize (Hz E); lia).
+  assert (Henc : b58_encode (c :: b) = map b58_char (d0 :: t)).
+  { unfold b58_encode. cbn [count_leading]. apply byte_eqb_neq in Hc. rewrite Hc. cbn [repeat app].
+    unfold b58_digits. destruct (Z.eqb_spec (unbe (c :: b)) 0) as [E|_]; [lia|]. rewrite Hd. reflexivity. }
+  rewrite Henc. rewrite Hd in Hf, Hu. split; [|apply b58_ascii; exact Hf].
+  unfold b58_decode.
+  rewrite (map_opt_map b58_index b58_char (fun d => 0 <= d < 58)) by (exact Hf || (intros x Hx; apply b58_char_props; exact Hx)).
+  cbn [map count_leading]. destruct (b58_char_props d0 (Forall_inv Hf)) as (_ & E1 & _). rewrite E1.
+  destruct (Z.eqb_spec d0 0) as [E|_]; [contradiction|]. cbn [repeat app]. rewrite Hu. exact Hmin.
+Qed.
+
+Lemma count_leading_repeat z n l : count_leading z (repeat z n ++ l) = (n + count_leading z l)%nat.
+Proof. induction n as [|n IH]; [reflexivity|]. cbn [repeat app count_leading]. rewrite (Byte.byte_dec_lb eq_refl), IH. reflexivity. Qed.
+
+(* the other direction: a string that decodes to a byte string with non-zero first byte is the encoding of that byte string *)
+Lemma b58_encode_decode s c b : b58_decode s = c :: b -> c <> x00 -> b58_encode (c :: b) = s.
+Proof.
+  intros H Hc. unfold b58_decode in H. destruct (map_opt b58_index s) as [ds|] eqn:E; [|discriminate].
+  destruct (map_opt_inv b58_index b58_char (fun d => 0 <= d < 58) b58_index_char s ds E) as [F M].
+  destruct (count_leading "1"%byte s) as [|k] eqn:K; [|cbn [repeat app] in H; inversion H; subst; contradiction].
+  cbn [repeat app] in H.
+  pose proof (undigits_nonneg 58 ltac:(lia) ds F) as Hnn.
+  assert (HN : unbe (c :: b) = undigits 58 ds) by (rewrite <- H; apply unbe_min_bytes; exact Hnn).
+  assert (HN0 : undigits 58 ds <> 0).
+  { intros E0. rewrite E0 in H. discriminate H. }
+  destruct ds as [|d0 t]; [exfalso; apply HN0; reflexivity|].
+  assert (Hd0 : d0 <> 0).
+  { intros ->. cbn [map] in M. rewrite <- M in K. cbn [count_leading] in K.
+    change (Byte.eqb (b58_char 0) "1") with true in K. discriminate. }
+  unfold b58_encode. cbn [count_leading]. apply byte_eqb_neq in Hc. rewrite Hc. cbn [repeat app].
+  unfold b58_digits. rewrite HN. destruct (Z.eqb_spec (undigits 58 (d0 :: t)) 0) as [E0|_]; [contradiction|].
+  rewrite to_digits_undigits; [exact M|lia|]. split; [exact F|]. exists d0, t. split; [reflexivity|]. intros; contradiction.
+Qed.
+
+(* ------------------------------------------------------------------ contract id <-> address *)
+Lemma to_contract_address_hex id : length id = 32%nat ->
+  to_contract_address (to_hex id) = COk (b58_encode (x03 :: id)).
+Proof.
+  intros L. unfold to_contract_address, hex_to_fixed, to_hex. rewrite hex_encode_length, L.
+  change ((32 * 2 =? go_contract_hex_bytes * 2)%nat) with true. cbn [negb]. rewrite hex_decode_encode.
+  change (byte_of_Z go_contract_addr_prefix) with x03. reflexivity.
+Qed.
+
+Lemma contract_id_of_address id : length id = 32%nat -> to_contract_id (b58_encode (x03 :: id)) = COk id.
+Proof.
+  intros L. unfold to_contract_id. destruct (b58_decode_encode x03 id ltac:(discriminate)) as [D A].
+  rewrite A, D. cbn [length]. rewrite L. change (33 =? go_contract_addr_len)%nat with true. cbn [negb].
+  change go_contract_id_from with 1%nat. reflexivity.
+Qed.
+
+Lemma contract_address_of_id a id : to_contract_id a = COk id ->
+  length id = 32%nat /\ exists p, b58_decode a = p :: id /\ (p = x03 -> to_contract_address (to_hex id) = COk a).
+Proof.
+  unfold to_contract_id. destruct (existsb (fun c => 128 <=? Z_of_byte c) a); [discriminate|].
+  destruct (Nat.eqb_spec (length (b58_decode a)) go_contract_addr_len) as [L|L]; cbn [negb]; [|discriminate].
+  intros H. inversion H as [H1]. change go_contract_addr_len with 33%nat in L. change go_contract_id_from with 1%nat in *.
+  destruct (b58_decode a) as [|p r] eqn:D; [discriminate|]. cbn [skipn] in *. cbn [length] in L.
+  split; [lia|]. exists p. split; [reflexivity|]. intros ->.
+  rewrite to_contract_address_hex by lia. f_equal. apply b58_encode_decode; [exact D|discriminate].
+Qed.
+
+(* ------------------------------------------------------------------ bytesToString *)
+Lemma drop_nul_repeat k l : drop_nul (repeat x00 k ++ l) = drop_nul l.
+Proof. induction k as [|k IH]; [reflexivity|]. cbn [repeat app drop_nul]. change (is_nul x00) with true. exact IH. Qed.
+
+Lemma rev_repeat {A} (x : A) n : rev (repeat x n) = repeat x n.
+Proof.
+  induction n as [|n IH]; [reflexivity|]. cbn [repeat rev]. rewrite IH. clear IH.
+  induction n as [|n IH]; [reflexivity|]. cbn [repeat app]. rewrite IH. reflexivity.
+Qed.
+
+Definition no_nul_ends (s : bytes) : Prop :=
+  (forall c t, s = c :: t -> c <> x00) /\ (forall c t, s = t ++ [c] -> c <> x00).
+
+Lemma drop_nul_id s : (forall c t, s = c :: t -> c <> x00) -> drop_nul s = s.
+Proof.
+  destruct s as [|c t]; intros H; [reflexivity|]. cbn [drop_nul]. specialize (H c t eq_refl).
+  unfold is_nul. apply byte_eqb_neq in H. rewrite H. reflexivity.
+Qed.
+
+Lemma bytes_to_string_padded k j s : no_nul_ends s -> bytes_to_string (repeat x00 k ++ s ++ repeat x00 j) = s.
+Proof.
+  intros [Hh Hl]. unfold bytes_to_string. rewrite drop_nul_repeat.
+  destruct s as [|c t].
+  - cbn [app]. rewrite <- (app_nil_r (repeat x00 j)), drop_nul_repeat. reflexivity.
+  - assert (E : drop_nul ((c :: t) ++ repeat x00 j) = (c :: t) ++ repeat x00 j).
+    { apply drop_nul_id. intros c' t' E. cbn [app] in E. inversion E; subst. apply (Hh c' t eq_refl). }
+    rewrite E, rev_app_distr, rev_repeat, drop_nul_repeat.
+    rewrite (drop_nul_id (rev (c :: t))); [apply rev_involutive|].
+    intros c' t' E'. apply (Hl c' (rev t')). rewrite <- (rev_involutive (c :: t)), E'. reflexivity.
+Qed.
+
+Lemma no_nul_no_nul_ends s : Forall (fun c => c <> x00) s -> no_nul_ends s.
+Proof.
+  intros F. rewrite Forall_forall in F. split; intros c t E; apply F; rewrite E; [left; reflexivity|].
+  apply in_or_app. right. left. reflexivity.
+Qed.
+
+(* ------------------------------------------------------------------ attestation payloads *)
+Lemma sub_at pre m post lo hi : length pre = lo -> (lo + length m = hi)%nat -> sub (pre ++ m ++ post) (lo, hi) = m.
+Proof.
+  intros <- <-. unfold sub. cbn [fst snd]. rewrite skipn_app, skipn_all, Nat.sub_diag, skipn_O. cbn [app].
+  replace (length pre + length m - length pre)%nat with (length m) by lia.
+  rewrite firstn_app, firstn_all, Nat.sub_diag, firstn_O, app_nil_r. reflexivity.
+Qed.
+
+Lemma attest_payload_inv id chain dec sym name nonce p : attest_payload id chain dec sym name nonce = Some p ->
+  p = ral_attest_payload id chain dec sym name /\ length id = 32%nat /\ length sym = 32%nat /\ length name = 32%nat /\
+  length nonce = 4%nat /\ 0 <= chain < 65536 /\ 0 <= dec < 256.
+Proof.
+  unfold attest_payload, ral_attest_size_asserts, ral_attest_u256_ranges.
+  destruct (forallb _ _ && forallb _ _) eqn:E; [|discriminate]. intros H. inversion H as [H1]. clear H.
+  apply andb_prop in E as [E1 E2]. cbn [forallb fst snd] in E1, E2.
+  change (256 ^ Z.of_nat 2) with 65536 in E2. change (256 ^ Z.of_nat 1) with 256 in E2.
+  repeat (apply andb_prop in E1 as [? E1]). repeat (apply andb_prop in E2 as [? E2]).
+  repeat match goal with H : (_ =? _)%nat = true |- _ => apply Nat.eqb_eq in H end.
+  repeat apply conj; try reflexivity; try assumption; lia.
+Qed.
+
+Lemma parse_attest_payload id chain dec sym name : length id = 32%nat -> length sym = 32%nat -> length name = 32%nat ->
+  0 <= chain < 65536 -> 0 <= dec < 256 ->
+  parse_attest_token (ral_attest_payload id chain dec sym name) =
+  if chain =? go_chain_id_alephium then
+    COk {| t_id := id; t_decimals := dec; t_symbol := bytes_to_string sym; t_name := bytes_to_string name |}
+  else CErr EAttestChain.
+Proof.
+  intros Li Ls Ln Hc Hd. unfold parse_attest_token, ral_attest_payload.
+  set (p := [x02] ++ id ++ be 2 chain ++ be 1 dec ++ sym ++ name).
+  assert (Lp : length p = 100%nat) by (unfold p; rewrite !app_length, !be_length, Li, Ls, Ln; reflexivity).
+  rewrite Lp. change (100 =? go_attest_len)%nat with true. cbn [negb].
+  assert (S1 : sub p go_attest_tokenid = id).
+  { unfold p. apply sub_at; [reflexivity|rewrite Li; reflexivity]. }
+  assert (S2 : sub p go_attest_chain = be 2 chain).
+  { unfold p. rewrite (app_assoc [x02] id). apply sub_at; [rewrite app_length, Li; reflexivity|rewrite be_length; reflexivity]. }
+  assert (S3 : sub p (go_attest_decimals_at, S go_attest_decimals_at) = be 1 dec).
+  { unfold p. rewrite (app_assoc id), (app_assoc [x02]). apply sub_at; [rewrite !app_length, be_length, Li; reflexivity|rewrite be_length; reflexivity]. }
+  assert (S4 : sub p go_attest_symbol = sym).
+  { unfold p. rewrite (app_assoc (be 2 chain)), (app_assoc id), (app_assoc [x02]).
+    apply sub_at; [rewrite !app_length, !be_length, Li; reflexivity|rewrite Ls; reflexivity]. }
+  assert (S5 : sub p go_attest_name = name).
+  { unfold p. rewrite <- (app_nil_r name) at 1. rewrite (app_assoc (be 1 dec)), (app_assoc (be 2 chain)), (app_assoc id), (app_assoc [x02]).
+    apply sub_at; [rewrite !app_length, !be_length, Li, Ls; reflexivity|rewrite Ln; reflexivity]. }
+  rewrite S1, S2, S3, S4, S5. rewrite !unbe_be.
+  change (256 ^ Z.of_nat 2) with 65536. change (256 ^ Z.of_nat 1) with 256.
+  rewrite (Z.mod_small chain) by lia. rewrite (Z.mod_small dec) by lia.
+  change (go_chain_id_alephium mod 65536) with go_chain_id_alephium.
+  destruct (chain =? go_chain_id_alephium); reflexivity.
 Qed.
